@@ -84,20 +84,6 @@ def probedType (t : RT) : Bool :=
   | .hash | .mod | .range | .mycatMod | .mycatLong | .mycatString | .mycatMurmur | .mycatPadding => true
   | _ => false
 
-/-- keys whose mycat_mod placement is not compared (see harness/props/c10.go) -/
-def mycatModSkip : Key → Bool
-  | .int v => v == minInt64
-  | .uint v => decide (v ≥ 2 ^ 63)
-  | .str s =>
-    let body := match s with
-      | '+' :: r => r
-      | '-' :: r => r
-      | _ => s
-    if body.isEmpty || !allDigits body then false
-    else match atoi s with
-      | none => true
-      | some v => v == minInt64
-
 /-- placement of one key under one rule, as the harness prints it.  For the
     murmur shard the model is parametric in the hash function: whatever it is,
     the result is one of the bucket values, i.e. `in` when there is a bucket at
@@ -105,12 +91,6 @@ def mycatModSkip : Key → Bool
 def placeOut (b : BaseRule) (k : Key) : String :=
   match b.shard with
   | .mycatMurmur _ count vbt => if count > 0 ∧ vbt > 0 then "in" else "err"
-  | .mycatMod _ =>
-    if mycatModSkip k then "skip" else
-    match findForKey (fun _ _ => 0) (fun _ => 0) b.shard k with
-    | .ok i => s!"(ok {i})"
-    | .fail => "err"
-    | .panic => "panic"
   | sh =>
     match findForKey (fun _ _ => 0) (fun _ => 0) sh k with
     | .ok i => s!"(ok {i})"
